@@ -41,6 +41,13 @@ pub struct Features {
     /// per-mille probability that a statement is a deliberately failing word
     pub errors: usize,
     pub redefine: bool,
+    /// the rest of the deterministic dictionary: predicates, logic, conversions, formatting tags,
+    /// text codecs, every fixed-width read / pack word, find / magic / cstr, enum, `~)`, `.s`, K
+    pub wide: bool,
+    /// bit-strings that end up the sole owner of a run-time built buffer (slices whose parent died)
+    pub orphans: bool,
+    /// user-defined immediate words (engines opt in; C10 lists their build-time effects as a known finding)
+    pub immediates: bool,
 }
 
 impl Features {
@@ -68,6 +75,9 @@ impl Features {
             strings: true,
             errors: 15,
             redefine: true,
+            wide: true,
+            orphans: true,
+            immediates: false,
         }
     }
     /// swarm: switch a random subset of feature families off
@@ -95,6 +105,8 @@ impl Features {
         f.reals = !off(rng);
         f.strings = !off(rng);
         f.redefine = !off(rng);
+        f.wide = !off(rng);
+        f.orphans = !off(rng);
         f.errors = *rng.pick(&[0, 0, 5, 15, 40]);
         f
     }
@@ -257,6 +269,9 @@ impl<'a> Gen<'a> {
             Ty::Nil => {
                 self.emit("nil");
                 self.push(Ty::Nil);
+            }
+            Ty::Bits if self.f.orphans && self.f.bits && self.rng.chance(1, 5) => {
+                self.computed_bits();
             }
             Ty::Bits => {
                 let s = *self.rng.pick(&["|ff|", "|12 34|", "|x.x|", "|0|", "||", "|a5 c|", "|xxxxxxx|", "|00 ff 7|"]);
@@ -422,7 +437,7 @@ impl<'a> Gen<'a> {
         let nested = self.depth >= 3;
         let top_level = self.depth == 0 && !self.in_def && !self.in_meta;
         let pure = self.in_meta;
-        let w: [u32; 22] = [
+        let w: [u32; 30] = [
             10,                                                           // 0 literal
             8,                                                            // 1 stack op
             10,                                                           // 2 arithmetic
@@ -445,6 +460,14 @@ impl<'a> Gen<'a> {
             if self.f.lets && !nested && !pure && (top_level || self.in_def) { 2 } else { 0 }, // 19 let
             if self.f.foreach && !nested && self.f.vecs { 2 } else { 0 }, // 20 foreach
             if self.f.strings { 2 } else { 0 },                           // 21 string ops
+            if self.f.wide { 3 } else { 0 },                              // 22 logic / predicates / conversions
+            if self.f.wide && self.f.tags { 2 } else { 0 },               // 23 formatting tags
+            if self.f.wide && self.f.bits && self.f.strings { 2 } else { 0 }, // 24 text codecs
+            if self.f.wide && self.f.input && !pure { 4 } else { 0 },     // 25 every read word
+            if self.f.wide && self.f.bits { 3 } else { 0 },               // 26 every pack word
+            if self.f.orphans && self.f.bits && !pure { 3 } else { 0 },   // 27 orphan slices
+            if self.f.immediates && top_level && self.f.defs { 2 } else { 0 }, // 28 user immediates
+            if self.f.wide { 2 } else { 0 },                              // 29 enum / defined / ~) / .s / K
         ];
         match self.rng.weighted(&w) {
             0 => {
@@ -471,12 +494,22 @@ impl<'a> Gen<'a> {
             18 => self.late_stmt(),
             19 => self.let_stmt(),
             20 => self.foreach_stmt(),
-            _ => self.str_op(),
+            21 => self.str_op(),
+            22 => self.logic_op(),
+            23 => self.fmt_op(),
+            24 => self.codec_op(),
+            25 => self.wide_read(),
+            26 => self.pack_op(),
+            27 => self.orphan_slice(),
+            28 => self.immediate_def(),
+            _ => self.misc_op(),
         }
     }
 
     fn failing(&mut self) {
-        match self.rng.below(8) {
+        match self.rng.below(if self.f.wide { 10 } else { 8 }) {
+            8 => self.emits(&["3", "exit"]),
+            9 => self.emits(&["\"zz\"", "str>number"]),
             0 => self.emits(&["1", "0", "/"]),
             1 => self.emits(&["\"x\"", "1", "+"]),
             2 => self.emits(&["nil", "assert"]),
@@ -1198,6 +1231,382 @@ impl<'a> Gen<'a> {
                 self.emits(&["dup", "equal?"]);
                 self.pop();
                 self.push(Ty::Flag);
+            }
+        }
+    }
+
+    // ------------------------------------------------------------ the rest of the dictionary
+
+    fn logic_op(&mut self) {
+        match self.rng.below(6) {
+            0 => {
+                self.want(Ty::Flag);
+                let b = *self.rng.pick(&["true", "false"]);
+                self.emit(b);
+                let op = *self.rng.pick(&["and", "or", "xor"]);
+                self.emit(op);
+            }
+            1 => {
+                self.want(Ty::Flag);
+                self.emit("not");
+            }
+            2 => {
+                if self.avail() == 0 {
+                    let t = self.some_ty();
+                    self.push_lit(t);
+                }
+                let op = *self.rng.pick(&["nil?", "bool?", "int?", "real?", "bitstr?", "str?", "vec?"]);
+                self.emit(op);
+                self.pop();
+                self.push(Ty::Flag);
+            }
+            3 if self.f.reals => {
+                self.want(Ty::Int);
+                self.emit(">real");
+                self.pop();
+                self.push(Ty::Real);
+            }
+            4 if self.f.reals => {
+                self.want(Ty::Real);
+                let op = *self.rng.pick(&[">int", "round"]);
+                self.emit(op);
+                self.pop();
+                self.push(Ty::Int);
+            }
+            _ => {
+                self.want(Ty::Int);
+                let op = *self.rng.pick(&[">b", ">kb", ">mb"]);
+                self.emit(op);
+            }
+        }
+    }
+
+    fn fmt_op(&mut self) {
+        if self.rng.chance(1, 5) {
+            if self.avail() == 0 {
+                self.push_lit(Ty::Int);
+            }
+            self.emits(&["{", "1", "\"a\"", "}", "with-tags"]);
+            return;
+        }
+        self.want(Ty::Int);
+        match self.rng.below(3) {
+            0 => {
+                let op = *self.rng.pick(&["^hex", "^dec", "^oct", "^bin"]);
+                self.emit(op);
+            }
+            1 => {
+                let b = *self.rng.pick(&["true", "false"]);
+                self.emit(b);
+                let op = *self.rng.pick(&["fmt/prefix", "fmt/upcase", "fmt/tags"]);
+                self.emit(op);
+                let base = *self.rng.pick(&["^hex", "^bin", "^oct"]);
+                self.emit(base);
+            }
+            _ => {
+                let base = *self.rng.pick(&["^hex", "^bin"]);
+                self.emit(base);
+                self.emits(&["true", "fmt/tags"]);
+            }
+        }
+        if self.f.print && !self.in_meta && self.rng.chance(1, 2) {
+            self.emits(&["dup", "println"]);
+        }
+    }
+
+    fn codec_op(&mut self) {
+        match self.rng.below(6) {
+            0 | 1 => {
+                self.want(Ty::Bits);
+                let (enc, dec) = *self.rng.pick(&[("base32", "base32>"), ("base32hex", "base32hex>"), ("base64", "base64>"), ("zero85", "zero85>")]);
+                self.emit(enc);
+                self.pop();
+                self.push(Ty::Str);
+                if self.rng.chance(1, 2) {
+                    self.emit(dec);
+                    self.pop();
+                    self.push(Ty::Bits);
+                }
+            }
+            2 => {
+                let s = *self.rng.pick(&["\"ff00\"", "\"a1b2c3\"", "\"\"", "\"0102030405\"", "\"7\""]);
+                self.emit(s);
+                self.emit("hex>bitstr");
+                self.push(Ty::Bits);
+            }
+            3 => {
+                let s = *self.rng.pick(&["|61 62|", "|78 65 68|", "||", "|ff|"]);
+                self.emit(s);
+                self.emit("bitstr>utf8");
+                self.push(Ty::Str);
+            }
+            4 => {
+                let s = *self.rng.pick(&["\"12\"", "\"-7\"", "\"1.5\"", "\"0\"", "\"255\""]);
+                self.emit(s);
+                self.emit("str>number");
+                self.push(Ty::Any);
+            }
+            _ => {
+                let s = *self.rng.pick(&["\"MFRGG===\"", "\"YQ==\"", "\"C5H0\""]);
+                let dec = *self.rng.pick(&["base32>", "base64>", "base32hex>", "zero85>"]);
+                self.emit(s);
+                self.emit(dec);
+                self.push(Ty::Bits);
+            }
+        }
+    }
+
+    fn wide_read(&mut self) {
+        match self.rng.below(14) {
+            0..=3 => {
+                let w = *self.rng.pick(&[
+                    "u8", "u8le", "u8be", "i8", "i8le", "i8be", "u16", "u16le", "u16be", "i16", "i16le", "i16be", "u32", "u32le", "u32be", "i32", "i32le",
+                    "i32be", "u64", "u64le", "u64be", "i64", "i64le", "i64be",
+                ]);
+                self.emit(w);
+                self.push(Ty::Int);
+            }
+            4 if self.f.reals => {
+                let w = *self.rng.pick(&["f32", "f32le", "f32be", "f64", "f64le", "f64be"]);
+                self.emit(w);
+                self.push(Ty::Real);
+            }
+            5 if self.f.reals => {
+                let n = *self.rng.pick(&["32", "64"]);
+                self.emit(n);
+                self.emit("float");
+                self.push(Ty::Real);
+            }
+            6 => {
+                let w = *self.rng.pick(&["nulbytestr", "cstr"]);
+                // make sure a NUL byte lies ahead half of the time
+                if self.rng.chance(1, 2) {
+                    self.emits(&["|61 62 00 63 64 00|", "open-bitstr"]);
+                    self.emit(w);
+                    self.emit("close-bitstr");
+                } else {
+                    self.emit(w);
+                }
+                self.push(if w == "cstr" { Ty::Str } else { Ty::Bits });
+            }
+            7 => {
+                let pat = *self.rng.pick(&["|00|", "|ff|", "|0|", "|x|", "|12 34|", "||"]);
+                self.emit(pat);
+                self.emit("find");
+                self.push(Ty::Any);
+            }
+            8 => {
+                // a magic that matches: read, seek back, match what was read
+                let n = format!("{}", 1 + self.rng.below(16));
+                self.emits(&["offset", &n, "bits", "swap", "seek", "magic"]);
+                self.push(Ty::Bits);
+            }
+            9 => {
+                let pat = *self.rng.pick(&["|00|", "|ff|", "|x|", "|.|"]);
+                self.emit(pat);
+                self.emit("magic");
+                self.push(Ty::Bits);
+            }
+            10 if self.f.print => {
+                if self.rng.chance(1, 2) {
+                    self.emit("dump");
+                } else {
+                    self.emits(&["offset", "dump-at"]);
+                }
+            }
+            11 => {
+                let v = *self.rng.pick(&["input", "output", "output-length", "big?"]);
+                self.emit(v);
+                self.push(Ty::Any);
+            }
+            12 => {
+                // a nested input that is read from, not only measured
+                self.want(Ty::Bits);
+                self.pop();
+                self.emits(&["open-bitstr", "remain", "0", ">", "if", "1", "bits", "drop", "then", "offset", "drop", "close-bitstr"]);
+            }
+            _ => {
+                let n = format!("{}", 1 + self.rng.below(3));
+                self.emit(&n);
+                self.emit("bytes");
+                self.push(Ty::Bits);
+            }
+        }
+    }
+
+    fn pack_op(&mut self) {
+        match self.rng.below(6) {
+            0..=2 => {
+                self.want(Ty::Int);
+                let w = *self.rng.pick(&[
+                    "u8!", "u8le!", "u8be!", "i8!", "i8le!", "i8be!", "u16!", "u16le!", "u16be!", "i16!", "i16le!", "i16be!", "u32!", "u32le!", "u32be!", "i32!",
+                    "i32le!", "i32be!", "u64!", "u64le!", "u64be!", "i64!", "i64le!", "i64be!",
+                ]);
+                self.emit(w);
+                self.pop();
+                self.push(Ty::Bits);
+            }
+            3 if self.f.reals => {
+                self.want(Ty::Real);
+                let w = *self.rng.pick(&["f32!", "f32le!", "f32be!", "f64!", "f64le!", "f64be!"]);
+                self.emit(w);
+                self.pop();
+                self.push(Ty::Bits);
+            }
+            4 if self.f.reals => {
+                self.want(Ty::Real);
+                let n = *self.rng.pick(&["32", "64"]);
+                self.emit(n);
+                self.emit("float!");
+                self.pop();
+                self.push(Ty::Bits);
+            }
+            _ => {
+                self.want(Ty::Int);
+                let n = format!("{}", 1 + self.rng.below(40));
+                self.emit(&n);
+                self.emit("uint!");
+                self.pop();
+                self.push(Ty::Bits);
+            }
+        }
+    }
+
+    /// a bit-string built at run time (its buffer is not kept alive by a literal in the code)
+    fn computed_bits(&mut self) {
+        match self.rng.below(5) {
+            0 => self.emits(&["[", "1", "2", "3", "]", ">bitstr"]),
+            1 => self.emits(&["\"aabbccdd\"", "hex>bitstr"]),
+            2 => self.emits(&["[", "17", "34", "51", "68", "85", "]", ">bitstr"]),
+            3 => self.emits(&["0x0102030405", "40", "uint!"]),
+            _ => self.emits(&["[", "255", "255", "255", "]", ">bitstr"]),
+        }
+        self.push(Ty::Bits);
+    }
+
+    /// Leave on the stack a slice whose parent buffer nothing else refers to: open a run-time built
+    /// bit-string, skip some bits, read the slice, close. Then usually mutate it (append / invert),
+    /// which is where the unique-owner shortcuts of the bit-string library are taken.
+    fn orphan_slice(&mut self) {
+        self.computed_bits();
+        self.pop();
+        self.emit("open-bitstr");
+        let unit_bits = self.rng.chance(1, 3);
+        let skip = self.rng.below(3);
+        if skip > 0 {
+            let k = format!("{}", if unit_bits { 1 + self.rng.below(9) } else { skip });
+            self.emit(&k);
+            self.emit(if unit_bits { "bits" } else { "bytes" });
+            self.emit("drop");
+        }
+        let n = format!("{}", if unit_bits { 1 + self.rng.below(12) } else { 1 + self.rng.below(2) });
+        self.emit(&n);
+        self.emit(if unit_bits { "bits" } else { "bytes" });
+        self.emit("close-bitstr");
+        self.push(Ty::Bits);
+        match self.rng.below(8) {
+            0 | 1 | 2 => {
+                let tail = *self.rng.pick(&["|ff|", "|12 34|", "|x|", "|0|", "|00|"]);
+                self.emit(tail);
+                self.emits(&["swap", "bitstr-append"]);
+            }
+            3 => self.emit("bitstr-not"),
+            4 => {
+                // the slice as a tail: the head is another run-time value
+                self.computed_bits();
+                self.pop();
+                self.emit("bitstr-append");
+            }
+            5 => {
+                self.emits(&["dup", "|f0|", "bitstr-or", "swap"]);
+                self.emit("bitstr-not");
+                self.push(Ty::Bits);
+            }
+            _ => {}
+        }
+        if self.rng.chance(1, 2) {
+            // make the absolute position of the result observable
+            match self.rng.below(3) {
+                0 => self.emits(&["dup", "open-bitstr", "offset", "remain", "+", "close-bitstr", "swap"]),
+                1 => self.emits(&["dup", "bitstr>hex", "swap"]),
+                _ => self.emits(&["dup", "bitstr-len", "swap"]),
+            }
+            let n = self.stack.len();
+            self.stack.insert(n - 1, Ty::Any);
+        }
+    }
+
+    fn immediate_def(&mut self) {
+        let name = self.fresh("w");
+        let lit = self.int_lit();
+        match self.rng.below(3) {
+            0 => self.emits(&[":", &name, "immediate", &lit, ";"]),
+            1 => self.emits(&[":", &name, &lit, "immediate", ";"]),
+            _ => self.emits(&[":", &name, "immediate", &lit, "1", "+", ";"]),
+        }
+        // used at top level straight away; the value it pushes at build time stays on the stack
+        if self.rng.chance(2, 3) {
+            self.want(Ty::Int);
+            self.emit(&name);
+            self.push(Ty::Int);
+        }
+        if self.rng.chance(1, 3) {
+            // and inside a definition
+            let user = self.fresh("w");
+            self.emits(&[":", &user, &name, "2", ";"]);
+            self.push(Ty::Int);
+            self.env.words.push(WordInfo { name: user, arity: 0, pending: false });
+        }
+    }
+
+    fn misc_op(&mut self) {
+        let top_level = self.depth == 0 && !self.in_def && !self.in_meta;
+        match self.rng.below(7) {
+            0 if top_level && self.f.consts => {
+                let e = self.fresh("E");
+                let a = self.fresh("K");
+                let b = self.fresh("K");
+                let c = self.fresh("K");
+                let v = format!("{}", self.rng.below(9));
+                self.emits(&["enum", &e, ":", &a, &v, "=", &b, &a, &b, "+", "=", &c, "endenum"]);
+                let pick = self.rng.pick(&[a.clone(), b.clone(), c.clone()]).clone();
+                self.emit(&pick);
+                self.push(Ty::Int);
+                self.env.consts.push(a);
+                self.env.consts.push(b);
+                self.env.consts.push(c);
+            }
+            1 => {
+                let mut names: Vec<String> = vec!["dup".into(), "zz-never".into()];
+                names.extend(self.env.words.iter().map(|w| w.name.clone()));
+                names.extend(self.env.vars.iter().map(|v| v.name.clone()));
+                let n = self.rng.pick(&names).clone();
+                self.emit("defined");
+                self.emit(&n);
+                self.push(Ty::Flag);
+            }
+            2 if self.f.meta && !self.in_meta && self.depth < 3 => {
+                // a meta block whose results stay on the build-time stack
+                let v = self.int_lit();
+                self.emits(&["#(", &v, "2", "+", "~)"]);
+                self.push(Ty::Int);
+            }
+            3 if self.f.print && !self.in_meta => self.emit(".s"),
+            4 if self.f.loops && self.depth < 2 => {
+                self.emits(&["2", "0", "do", "1", "0", "do", "2", "0", "do", "K", "J", "+", "I", "+", "drop", "loop", "loop", "loop"]);
+            }
+            5 if self.in_meta && self.f.strings => {
+                self.emits(&["<name>", "zz-name"]);
+                self.push(Ty::Str);
+            }
+            _ => {
+                if !self.env.consts.is_empty() {
+                    let c = self.rng.pick(&self.env.consts).clone();
+                    self.emit(&c);
+                    self.push(Ty::Int);
+                } else {
+                    self.push_lit(Ty::Int);
+                }
             }
         }
     }
